@@ -75,19 +75,23 @@ theorem c04_location_of_compile_failure (e : ExcDesc) (l : Nat) (hf : e.frames =
   have hstrat : lineStrategy = .studentFirst := by decide
   simp [chooseLine, hstrat, hf, hl, lastLine]
 
-/-- The ladder does the same whatever is on the stacks (it never pops what it did not push; 48 cases). -/
-theorem c04_ladder_depth_independent : allSigs.all (checkC05 mockProbe executeDef) = true := by decide
+/-- C05's depth independence, imported as a hypothesis (proved for the generated ladder as
+    `c05_ladder_depth_independent` in PedalProofs/C05.lean): `_execute` plans the same steps whatever is already on
+    the patch / stdout stacks. -/
+def DepthIndependent : Prop :=
+  ∀ (b : Base) (sig : Sig), plan mockProbe b sig executeDef = plan mockProbe base0 sig executeDef
 
 /-- Containment does not depend on where the execution is started: in ANY state of the stacks - i.e. while other
     executions are in progress on the same sandbox (an input callable or a mocked builtin that runs call() /
     evaluate() / run() itself) - and whatever executions `inner` its own code starts, the call returns. -/
-theorem c04_contained_when_nested (style : TraceStyle) (nested : Bool) (s : St) (inner : St → St) (t : Termination)
-    (e : ExcDesc) (ht : t.exc? = some e) (hc : e.containable) (hz : e.safe) :
+theorem c04_contained_when_nested (hC05 : DepthIndependent) (style : TraceStyle) (nested : Bool) (s : St)
+    (inner : St → St) (t : Termination) (e : ExcDesc) (ht : t.exc? = some e) (hc : e.containable) (hz : e.safe) :
     (executeN genCfg style nested s t false inner).2 = .returned := by
   have h0 := c04_contained style nested St.init (by decide) t e ht hc hz
   have hb : baseOf St.init = base0 := by decide
   simp only [execute, hb] at h0
-  simp only [executeN, plan_any_base genCfg (forall_sig_of_all c04_ladder_depth_independent)]
+  simp only [executeN]
+  rw [show genCfg.probe = mockProbe from rfl, show genCfg.exec = executeDef from rfl, hC05]
   exact h0
 
 /-- A run that ends normally returns, reports nothing and leaves no exception. -/
